@@ -41,6 +41,10 @@ STD_POINTS = [0, 0.0, 0.5, -0.5, 1, -1, 1.5, -1.5, 2, -2, 3, -3, 1e-9, None]
 
 
 def run(rep):
+    rep.alias = {"O1.3": "O2.2"}
+    from . import C01
+    rep.run(C01.standard_order)  # the centre is defined through standard_order: it must be the exact difference
+    rep.alias = {}
     rep.run(predicate)
     rep.run(changed_bonds)
     rep.run(ensure_node)
